@@ -114,6 +114,52 @@ fn gen_programs_n(nrep: usize, depth: usize, f: &mut dyn FnMut(&Vec<O>, &Vec<Vec
     rec(reps.clone(), vec![vec![]; nrep], vec![], String::new(), depth, f);
 }
 
+fn lcg(s: &mut u64) -> u64 { *s = s.wrapping_mul(6364136223846793005).wrapping_add(1442695040888963407); *s >> 33 }
+
+/// random programs (3 replicas, members {0,1,2}): longer histories than the exhaustive phase reaches, e.g. several
+/// removes sharing one context that overtake the adds they observed
+fn random_walks(r: &mut Report, n: usize, len: usize, seed: u64) {
+    r.bound.push_str(&format!("; then {} random programs of {} steps over 3 replicas, members {{0,1,2}} (seed {})", n, len, seed));
+    let mut s = seed.wrapping_add(0xabcdef12345);
+    for _ in 0..n {
+        let mut reps: Vec<O> = vec![O::new(), O::new(), O::new()];
+        let mut known: Vec<Vec<Op<u8, u8>>> = vec![vec![]; 3];
+        let mut all: Vec<Op<u8, u8>> = vec![];
+        let mut desc = String::new();
+        for _ in 0..len {
+            let i = (lcg(&mut s) % 3) as usize;
+            let actor = (i + 1) as u8;
+            match lcg(&mut s) % 8 {
+                0 | 1 => { let m = (lcg(&mut s) % 3) as u8; let op = reps[i].add(m, reps[i].read().derive_add_ctx(actor)); reps[i].apply(op.clone()); known[i].push(op.clone()); all.push(op); desc.push_str(&format!(" r{}:add({})", i, m)); }
+                2 => { let m = (lcg(&mut s) % 3) as u8; let op = reps[i].rm(m, reps[i].contains(&m).derive_rm_ctx()); reps[i].apply(op.clone()); known[i].push(op.clone()); all.push(op); desc.push_str(&format!(" r{}:rm({})", i, m)); }
+                3 => {
+                    // two removes from ONE read context (same clock, different members)
+                    let ops: Vec<Op<u8, u8>> = (0..2u8).map(|m| reps[i].rm(m, reps[i].read().derive_rm_ctx())).collect();
+                    for op in ops { reps[i].apply(op.clone()); known[i].push(op.clone()); all.push(op); }
+                    desc.push_str(&format!(" r{}:rm(0),rm(1)@read", i));
+                }
+                4 | 5 | 6 => {
+                    if all.is_empty() { continue; }
+                    let j = (lcg(&mut s) as usize) % all.len();
+                    if let Op::Add { dot, .. } = &all[j] { if reps[i].clock().get(&dot.actor) + 1 < dot.counter { continue; } }
+                    reps[i].apply(all[j].clone()); known[i].push(all[j].clone()); desc.push_str(&format!(" r{}<-op{}", i, j));
+                }
+                _ => { let j = (i + 1 + (lcg(&mut s) % 2) as usize) % 3; let o = reps[j].clone(); reps[i].merge(o); let kj = known[j].clone(); known[i].extend(kj); desc.push_str(&format!(" r{}<-merge(r{})", i, j)); }
+            }
+            for (q, o) in reps.iter().enumerate() {
+                let want = den(&known[q]); let got = state(o);
+                r.case("orswot.den", want == got, &|| format!("{} @r{}", desc, q), &|| format!("state {:?} want {:?}", got, want));
+            }
+            for a in 0..3 { for b in 0..a {
+                let ka: BTreeSet<String> = known[a].iter().map(|o| format!("{:?}", o)).collect();
+                let kb: BTreeSet<String> = known[b].iter().map(|o| format!("{:?}", o)).collect();
+                if ka == kb { r.case("orswot.same_knowledge_eq", reps[a] == reps[b], &|| desc.clone(), &|| format!("r{} {:?} != r{} {:?}", a, reps[a], b, reps[b])); }
+            } }
+            if r.failures > 0 { return; }
+        }
+    }
+}
+
 pub fn search(r: &mut Report, tier: &str, _seed: u64) {
     let depth = if tier == "thorough" { 5 } else { 4 };
     r.target = "Orswot (C04/C07 and the Orswot rows of C01-C03, C08, C09): reads == knowledge-set denotation".into();
@@ -129,8 +175,11 @@ pub fn search(r: &mut Report, tier: &str, _seed: u64) {
         let k1: BTreeSet<String> = known[1].iter().map(|o| format!("{:?}", o)).collect();
         if k0 == k1 {
             r.case("orswot.same_knowledge_same_read", state(&reps[0]) == state(&reps[1]), &|| desc.clone(), &|| format!("{:?} vs {:?}", state(&reps[0]), state(&reps[1])));
+            // C20: equal knowledge gives structurally equal state (pending removes included)
+            r.case("orswot.same_knowledge_eq", reps[0] == reps[1], &|| desc.clone(), &|| format!("{:?} != {:?}", reps[0], reps[1]));
         }
     });
+    if r.failures == 0 { random_walks(r, if tier == "thorough" { 200000 } else { 20000 }, 12, _seed); }
     // deeper: three replicas (only reached when the two-replica space showed nothing; stops at the first failure)
     if r.failures == 0 && tier != "quick-noextra" {
         let d3 = if tier == "thorough" { 5 } else { 4 };
